@@ -37,7 +37,7 @@ LEVEL_TEXT = (
 )
 
 PROFILE = Profile(name="sim", p_filter=0.7, force_sparse_and_dense_choice=0.35, max_periods=3,
-                  max_points=30_000)
+                  max_points=30_000, p_near_tie=0.25)
 
 
 @st.composite
